@@ -22,13 +22,16 @@ CONFIG = {
     "mult_search": 3,
     "refuted": [],
     "partial": [
-        "proved for all inputs: integer exactness / quoted-or-bare leniency / out-of-range, unparsable and wrong-type rejection for the four widths over all of Z; bool, string, key exactness; enum exactness, prefix leniency, unknown-name rejection; date exactness and invalid-date rejection; at the position where they stand: explicit null skipped, duplicate member, unknown key (object, oneof), second member of a proto oneof, more than one key in a oneof, contradicting \"!type\", null array element rejected; an error in a member fails its object",
-        "not proved (checked by the direct oracle and the correspondence only): base64 spelling equivalence, float / timestamp / decimal exactness (library functions uninterpreted), the document-level statement (exactness and rejection at an arbitrary position by induction on the path) and the query clause",
+        "document level, proved: the token-level model (tied to the Go code) computes on the tokens of a document tree exactly the tree reading CodecDecTree.tr_decode (C03_token_model_is_tree_reading); REJECTION clause in full: a fault of any listed class (wrong JSON type, conversion refuses the text, unknown enum name, unknown key, null element / map value, non-string \"!type\", more than one key in a oneof, contradicting \"!type\") at any position to any depth makes JSONToProto return an error (C03_fault_at_any_position_rejected); EXACTNESS clause under the schema condition props_separate (distinct properties of a set write to diverging proto paths; members of one proto oneof are covered, their mutual exclusion being enforced by the modelled CreateField conflict check; the condition is decidable, props_separate_b_sound, and the correspondence evaluates it on every environment dumped from the real reflector): every non-null member of an accepted document is decoded by its own property's decoder and the field it wrote is unchanged at the end, scalars hold exactly the converted value, arrays every element in order, object members the decode of the sub-document (C03_document_members_stored, C03_document_scalars_stored, C03_nested_members_stored, C03_object_member_own, C03_array_member_own)",
+        "exactness is NOT proved for map entries beyond the duplicate-key rejection, nor for arrays of objects / oneofs beyond the per-element decode",
+        "scalar level, proved for all inputs: integers of the four widths over all of Z (value = positional reading of the digits, independent of the parser: C03_decimal_reading; quoted or bare; out-of-range, unparsable, wrong type rejected); bool / string / key stored as written; floats and decimals: quoted = bare for ANY behaviour of the library conversion, wrong type rejected — but their VALUE exactness (correct rounding, decimal canonical form), timestamps at any offset are NOT proved (strconv.ParseFloat, time.Parse, decimal.NewFromString are uninterpreted): direct oracle + correspondence only; base64: the four spellings (standard / URL-safe alphabet, padded / unpadded) of lib/Base64.b64_encode bs decode to bs for every byte string, and a character outside both alphabets is rejected wherever it stands (C03_base64_four_spellings, C03_base64_foreign_char_rejected); enum prefix leniency holds unless the prefixed text is itself a short name; dates: the three numbers stored are the numbers written and form a calendar date",
+        "LENIENCY clause at document level (\"produce the same MESSAGE\": combinations of respelled leaves, member reordering, insignificant whitespace, explicit nulls) is NOT proved; explicit null members are proved to be skipped (C03_null_member_skipped); the rest is checked by the variant stream of the direct oracle",
+        "query clause: one scalar value for the last path component stores what the corresponding JSON token would (C03_query_scalar_as_json); enums, arrays and dotted paths by correspondence only",
     ],
 }
 
 MANIFEST = {
-    "text": "Theorems over the Gallina model of the J5 decoder: for the four integer widths over all of Z a stored integer is exactly the value its digits denote, every representable integer decodes to itself quoted and bare, and out-of-range / unparsable / wrongly typed values are errors; bool, string and key values are stored as written; enum names decode with or without the prefix to the option they name and unknown names are errors; dates are calendar dates or errors; explicit nulls leave the message untouched; duplicate members, unknown keys, a second member of a proto oneof, several keys in a oneof, a contradicting \"!type\" and null array elements are errors where they stand and a member's error fails the enclosing object. On every run an independent reader in the harness computes what each generated document denotes (canonical encodings, every documented spelling variation in combination, one injected fault per document at a random position, URL-query spellings) and compares it with the real decoder's result; the same documents tie the model to the code.",
-    "note": "Partial: the document-level induction over positions, base64 equivalence and float/timestamp/decimal exactness are checked by oracle and correspondence, not proved. Trusted: Coq kernel; translator; harness incl. the independent reader; tokenizer/strconv/base64/protoreflect models.",
+    "text": "Theorems over the Gallina model of the J5 decoder. Document level: the token-level model is proved equal to a tree reading of the document; every fault of a listed class at any position to any depth is rejected with an error; every non-null member of an accepted document is decoded and the field it wrote survives to the final message (under a decidable schema separation condition that the run checks on the real schemas). Scalar level: for the four integer widths over all of Z a stored integer is exactly the value its digits denote, every representable integer decodes to itself quoted and bare, and out-of-range / unparsable / wrongly typed values are errors; bool, string and key values are stored as written; enum names decode with or without the prefix to the option they name and unknown names are errors; dates are calendar dates or errors; explicit nulls leave the message untouched; duplicate members, unknown keys, a second member of a proto oneof, several keys in a oneof, a contradicting \"!type\" and null array elements are errors where they stand and a member's error fails the enclosing object. On every run an independent reader in the harness computes what each generated document denotes (canonical encodings, every documented spelling variation in combination, one injected fault per document at a random position, URL-query spellings) and compares it with the real decoder's result; the same documents tie the model to the code.",
+    "note": "Partial: document-level leniency (same message for respelled / reordered / null-padded documents), float / timestamp / decimal value exactness are checked by oracle and correspondence, not proved. Trusted: Coq kernel; translator; harness incl. the independent reader; tokenizer/strconv/base64/protoreflect models.",
     "technique": "Rocq/Coq proof (radix round trip, case analysis over the scalar switches and the member/oneof checks) + regenerated switch tables + in-Coq differential correspondence + independent document reader as direct oracle",
 }
